@@ -18,10 +18,12 @@ impl<'a> Dec<'a> {
         Dec { reg, buf, pos: 0, depth: 0 }
     }
     fn ty(&self, id: u32) -> R<&'a MType> {
-        let mut it = self.reg.types.iter().filter(|t| t.id == id);
-        let first = it.next().ok_or_else(|| format!("[sig:dangling] type id {id} is not in the registry"))?;
-        if it.next().is_some() {
-            return Err(format!("type id {id} occurs twice in the registry"));
+        // a consumer resolves ids the way `PortableRegistry::resolve` does - by position - so that
+        // is what "from the registry description alone" means here; the entry found must also be
+        // the one labelled `id` (a registry with a hole or a shifted tail describes other bytes)
+        let first = self.reg.types.get(id as usize).ok_or_else(|| format!("[sig:dangling] type id {id} is not in the registry"))?;
+        if first.id != id {
+            return Err(format!("[sig:dangling] type id {id} resolves (by position) to the entry labelled {}", first.id));
         }
         Ok(&first.ty)
     }
